@@ -13,6 +13,10 @@ class Infra(Exception):
     """Infrastructure failure: exit status 2, never a VIOLATION line."""
 
 
+class Enough(Exception):
+    """Raised once a run has collected enough violations; the check stops exploring and reports them."""
+
+
 class Ctx:
     def __init__(self, pid, tier, seed):
         self.pid = pid
@@ -180,8 +184,18 @@ def convert_events(evs, attach_calls=True):
     follows them (field calls): they happened during that call."""
     out = []
     pending_calls = []
+    pending_spills = []
     for e in evs:
         e = dict(e)
+        if e.get("e") == "Spill":
+            pending_spills.append({"tmpl": list(e["tmpl"].encode()), "nadd": e["nadd"]})
+            continue
+        if pending_spills and e.get("e") in ("SAdd", "SIter", "SWrite", "SDestroy"):
+            e["spills"] = pending_spills
+            pending_spills = []
+        if e.get("e") == "SInit":
+            e["tmpdir"] = list(e["tmpdir"].encode())
+            e["maxmem"] = 1073741824 if e["maxmem"] == "default" else min(int(e["maxmem"]), 2000000000)
         if attach_calls and e.get("e") == "MergeCall":
             pending_calls.append({"m": e["m"], "k": hex2ints(e["k"]), "a": val2ints(e["a"]), "b": val2ints(e["b"]), "fail": e["fail"]})
             continue
@@ -283,6 +297,8 @@ def report(ctx, what, replay_obj, signature=None):
             return
     p = save_replay(ctx, replay_obj)
     ctx.violations.append({"what": what, "replay": p})
+    if len(ctx.violations) >= 6:
+        raise Enough()
 
 
 def finish(ctx, level, extra_cov=None, rule=None):
